@@ -949,7 +949,7 @@ func (w *c03World) canon() string {
 		if sess == "?" {
 			r := b.Req("GET", "/")
 			if hr, err := r.Parse(); err == nil {
-				if s, err := w.px.P.sessionStore.Load(hr); err == nil && s != nil {
+				if s, err := verifSessionStore(w.px.P).Load(hr); err == nil && s != nil {
 					sess = s.Email
 				}
 			}
